@@ -10,10 +10,11 @@ namespace Mq
 run, are the model's: `bindata.UnmarshalBinary` (the length prefix read with its error dropped, the guard
 `len(data) < int(length)+2` with its comparison operator and constant, the zero-length case that leaves the destination
 — and therefore the width the cursor advances by — alone, `make` + `copy(data[2:int(length)+2])`), and
-`UserProp.UnmarshalBinary` (key, the value starting at `len(key)+2`, the width) -/
+`UserProp.UnmarshalBinary` (key, the value starting at `len(key)+2`, the width), `rawdata.UnmarshalBinary` (the PUBLISH
+payload: a copy of all that is left) -/
 theorem C09_wire_decoders_from_source :
-    (∀ old, Gen.bindata.dec old = decBin old) ∧ Gen.UserProp.dec = decPair :=
-  ⟨Tie.WireVar.bindata_dec, Tie.WireVar.userProp_dec⟩
+    (∀ old, Gen.bindata.dec old = decBin old) ∧ Gen.UserProp.dec = decPair ∧ Gen.rawdata.dec = decRaw :=
+  ⟨Tie.WireVar.bindata_dec, Tie.WireVar.userProp_dec, Tie.WireVar.rawdata_dec⟩
 
 /-- `UserProp.fill` is the model's filler -/
 theorem C02_userProp_fill_from_source (kv : Bytes × Bytes) : Gen.UserProp.fill kv = fillPair kv.1 kv.2 :=
